@@ -4,8 +4,8 @@ import BumpVerif.Proofs.StrRetain
 # Programs over the `String` API: validity is an invariant of every run
 
 `SOp` lists the methods of the property; `stepOp` is what one call does to the string under
-`catch_unwind` (a panicking call leaves the string as the method left it — for every method
-except `retain` with a panicking closure that is "unchanged").  Text arguments are `List Char`
+`catch_unwind` (a call that panics on its index/range assertion leaves the string unchanged;
+closures that panic are the business of C16: `Proofs/StrPanic.lean`).  Text arguments are `List Char`
 (a `&str` argument is valid UTF-8 by its type).
 -/
 namespace Bump.Str
